@@ -606,12 +606,22 @@ prewire_run(Params *p)
 	// a fresh exchange on ctx 0 must work and deliver its own reply
 	MUST(nng_ctx_sendmsg(c[0], mkreq(0, 0), 0));
 	nng_msg *q = NULL;
-	if (nng_recvmsg(rep, &q, 0) == 0) {
+	bool     got0 = false;
+	// requests of the other contexts may still be arriving (the link has
+	// only just healed): answer them too, until ctx 0's new one shows up
+	for (int k = 0; k < 12 && !got0; k++) {
+		if (nng_recvmsg(rep, &q, 0) != 0)
+			break;
 		const uint8_t *qh = (const uint8_t *) nng_msg_header(q);
-		uint8_t echo[6];
-		memcpy(echo, nng_msg_body(q), 6);
-		adv_reply(&w, get32(qh), get32(qh + 4), 'C', echo, 6);
+		uint8_t echo[6] = { 0 };
+		if (nng_msg_header_len(q) == 8 && nng_msg_len(q) >= 6) {
+			memcpy(echo, nng_msg_body(q), 6);
+			adv_reply(&w, get32(qh), get32(qh + 4), 'C', echo, 6);
+			got0 = echo[1] == 0;
+		}
 		nng_msg_free(q);
+	}
+	if (got0) {
 		nng_msg *r = NULL;
 		nng_ctx_set_ms(c[0], NNG_OPT_RECVTIMEO, 2000);
 		int rv = nng_ctx_recvmsg(c[0], &r, 0);
